@@ -210,7 +210,7 @@ class Axis(Node):
 
     def parent(self, node: NodeBase) -> Iterator[_DocumentNode | NodeBase]:
         parent = node.parent
-        if parent:
+        if parent is not None:
             yield parent
         else:
             yield _DocumentNode(node)
